@@ -450,7 +450,7 @@ PROPS = {
     "C01": dict(streams=[("store", 120), ("batch", 60)], proj=proj_store, theorems=["Properties/C01.v"],
                 oracles=[oracle_go_checks], key_ops={5, 6, 7, 8, 9, 4, 31}),
     "C02": dict(streams=[("store", 100), ("shrink", 50)], proj=proj_handles, theorems=["Properties/C02.v"],
-                oracles=[oracle_handles, oracle_alive_monotone], key_ops={0, 1, 3, 4, 11, 12, 30}),
+                oracles=[oracle_handles, oracle_alive_monotone], key_ops={0, 1, 3, 4, 11, 12, 30}, special="codec"),
     "C03": dict(streams=[("query", 150), ("relations", 50)], proj=proj_query, theorems=["Properties/C03.v"],
                 oracles=[oracle_query_once], key_ops={18, 20, 22, 23}),
     "C04": dict(streams=[("relations", 180)], proj=proj_relations, theorems=["Properties/C04.v"],
